@@ -169,8 +169,11 @@ func c09Disk(assetNames []string, wf string, cfg string) *kern.Disk {
 // simulated shellcheck / pyflakes enabled (issues derive from markers in the scripts).
 var c09Tools bool
 
+var c09LogLevel int
+
 func c09World(disk *kern.Disk) *World {
 	w := &World{Disk: disk, Cwd: "/w/r", CPUs: 2, API: APIFile, Files: []string{".github/workflows/t.yml"}}
+	w.Opts.Verbose, w.Opts.Debug = c09LogLevel == 1, c09LogLevel == 2
 	if c09Tools {
 		w.Tools = &Tools{}
 		w.Opts.Shellcheck, w.Opts.Pyflakes = "shellcheck", "pyflakes"
@@ -202,6 +205,7 @@ func lintAlone(o *Outcome, header string, blocks []c09Block, assetNames []string
 		return r
 	}
 	w := c09World(c09Disk(assetNames, text, cfg))
+	w.Opts.Verbose, w.Opts.Debug = false, false // the reference is always the quiet run
 	res := RunLint(w, nil, RunOpts{Canonical: true})
 	o.addRun(res.K)
 	r := &aloneResult{fatal: res.Fatal, failed: runFailure("C09", res.K)}
@@ -302,6 +306,7 @@ func (c09) Eval(c *Chooser, env *Env) *Outcome {
 	}
 	cfg := c09Configs[c.Int("world.config", len(c09Configs))]
 	c09Tools = c.Weighted("world.tools", 1, 3)
+	c09LogLevel = c.Int("world.loglevel", 8) // 1: verbose, 2: debug, else quiet (the same in the composed and the solo runs)
 	ngroups := 2 + c.Int("world.ngroups", 5)
 	taken := map[string]bool{}
 	var groups []*c09Group
